@@ -150,6 +150,31 @@ inline std::string json_escape(const std::string& s)
 }
 
 // ----------------------------------------------------------------------------
+// The string literals of the tree under test (file named by VF_LITERALS, one literal per line in hex;
+// written by the driver from include/ and src/). Generators draw from them now and then: the values the
+// code mentions are the values it may treat specially. Empty when the variable is not set (replays).
+inline const std::vector<std::string>& source_literals()
+{
+    static const std::vector<std::string>* lits = [] {
+        auto* v = new std::vector<std::string>;
+        const char* path = std::getenv("VF_LITERALS");
+        if (!path)
+            return v;
+        std::ifstream in(path);
+        std::string line;
+        while (std::getline(in, line))
+        {
+            std::string b;
+            for (std::size_t i = 0; i + 1 < line.size(); i += 2)
+                b.push_back(static_cast<char>(std::stoi(line.substr(i, 2), nullptr, 16)));
+            if (!b.empty())
+                v->push_back(b);
+        }
+        return v;
+    }();
+    return *lits;
+}
+
 // choice sources
 
 struct Src
